@@ -3,6 +3,12 @@
 TECH = "bounded symbolic execution of the real acryo source (z3 proxies + path forking); z3 decides each obligation over all values inside the stated bounds; counterexamples replayed on the unmodified API"
 
 CLAIMED = {
+    "C01": {
+        "text": "Write-back of alignment results decided for symbolic position, scale, shift, alignment rotation (unit quaternion) and score with exact rational molecule orientations (R30): the sampling grid of the output pose equals the input grid composed with the transform AlignmentResult.affine_matrix denotes "
+                "(p' = p + scale R_m s, R' = R_m R_q) for single, multi-template and grouped write-back; input untouched; features = (round(s*scale,2), rotvec, score); max_shifts/scale, pos/scale and quaternions reach the model.",
+        "note": "Trusted: z3 (nlsat), symx, SymRotation quaternion/rotvec contract (linearity and orthogonality obligations discharged per path), C02's sampling rule, real polars. NOT covered: that the FFT correlation search finds the true displacement/rotation on real images (C04/C06 cover its conventions); BatchLoader write-back order (C03).",
+        "ref": "DESIGN.md §4 C01",
+    },
     "C02": {
         "text": "Solver-decided over unbounded integers/reals: slice/pad arithmetic, out-of-bound <=> no overlap, and the sampling rule "
                 "pos/scale + R(o-(shape-1)/2) for every explored path of the real construct_loading_tasks (tomogram size, position, scale, "
